@@ -229,7 +229,7 @@ func checkC20(c *Ctx, r *Report) {
 	}
 	lenOfField := func(v ssa.Value, field string) bool {
 		call, _ := v.(*ssa.Call)
-		return call != nil && calleeKey(call) == "builtin.len" && isLoadOfField(ctrT + "." + field)(strip2(call.Call.Args[0]))
+		return call != nil && calleeKey(call) == "builtin.len" && isLoadOfField(ctrT+"."+field)(strip2(call.Call.Args[0]))
 	}
 	if us := r2.need("(*" + swarmP + ".BlackHoleSuccessCounter).updateState"); us != nil {
 		var blockedStores []ssa.Instruction
@@ -241,17 +241,17 @@ func checkC20(c *Ctx, r *Report) {
 			}
 		}
 		r2.guard(us, "state = Blocked", blockedStores, "len(dialResults) >= N", edgeCmp(func(b *ssa.BinOp) bool {
-			return (b.Op == token.LSS || b.Op == token.LEQ) && lenOfField(b.X, "dialResults") && isLoadOfField(ctrT + ".N")(strip2(b.Y))
+			return (b.Op == token.LSS || b.Op == token.LEQ) && lenOfField(b.X, "dialResults") && isLoadOfField(ctrT+".N")(strip2(b.Y))
 		}, false), nil)
 		r2.guard(us, "state = Blocked", blockedStores, "successes < MinSuccesses", edgeCmp(func(b *ssa.BinOp) bool {
-			return b.Op == token.GEQ && isLoadOfField(ctrT + ".successes")(strip2(b.X)) && isLoadOfField(ctrT + ".MinSuccesses")(strip2(b.Y))
+			return b.Op == token.GEQ && isLoadOfField(ctrT+".successes")(strip2(b.X)) && isLoadOfField(ctrT+".MinSuccesses")(strip2(b.Y))
 		}, false), nil)
 	}
 	resetK := "(*" + swarmP + ".BlackHoleSuccessCounter).reset"
 	if rr := r2.need("(*" + swarmP + ".BlackHoleSuccessCounter).RecordResult"); rr != nil {
 		var blockedCmp ssa.Value
 		allInstrs(rr, func(in ssa.Instruction) {
-			if b, ok := in.(*ssa.BinOp); ok && b.Op == token.EQL && isLoadOfField(ctrT + ".state")(strip2(b.X)) {
+			if b, ok := in.(*ssa.BinOp); ok && b.Op == token.EQL && isLoadOfField(ctrT+".state")(strip2(b.X)) {
 				if v, ok := constInt(b.Y); ok && v == stBlocked {
 					blockedCmp = b
 				}
@@ -280,7 +280,7 @@ func checkC20(c *Ctx, r *Report) {
 					trims = append(trims, in)
 				}
 			}
-			if ia, ok := in.(*ssa.IndexAddr); ok && isLoadOfField(ctrT + ".dialResults")(strip2(ia.X)) {
+			if ia, ok := in.(*ssa.IndexAddr); ok && isLoadOfField(ctrT+".dialResults")(strip2(ia.X)) {
 				if n, isC := constInt(ia.Index); isC && n == 0 {
 					evictReads = append(evictReads, in)
 				}
@@ -348,7 +348,7 @@ func checkC20(c *Ctx, r *Report) {
 	if gf := r3.need("(*" + swarmP + ".blackHoleDetector).getFilterState"); gf != nil {
 		var ro ssa.Value
 		allInstrs(gf, func(in ssa.Instruction) {
-			if v, ok := in.(ssa.Value); ok && isLoadOfField(detT + ".readOnly")(v) {
+			if v, ok := in.(ssa.Value); ok && isLoadOfField(detT+".readOnly")(v) {
 				ro = v
 			}
 		})
@@ -392,7 +392,7 @@ func checkC20(c *Ctx, r *Report) {
 		stateEq := func(k int64) EdgePred {
 			return edgeCmp(func(b *ssa.BinOp) bool {
 				v, ok := constInt(b.Y)
-				return ok && v == k && b.Op == token.EQL && isLoadOfField(ctrT + ".state")(strip2(b.X))
+				return ok && v == k && b.Op == token.EQL && isLoadOfField(ctrT+".state")(strip2(b.X))
 			}, false)
 		}
 		r4.guard(hr, "return Blocked", blockedRets, "state != Allowed", stateEq(stAllowed), nil)
@@ -400,7 +400,7 @@ func checkC20(c *Ctx, r *Report) {
 		r4.guard(hr, "return Blocked", blockedRets, "requests % N != 0", edgeCmp(func(b *ssa.BinOp) bool {
 			_, ok := constInt(b.Y) // any fixed residue lets one request per N through
 			rem, isRem := b.X.(*ssa.BinOp)
-			return ok && b.Op == token.EQL && isRem && rem.Op == token.REM && isLoadOfField(ctrT + ".requests")(strip2(rem.X)) && isLoadOfField(ctrT + ".N")(strip2(rem.Y))
+			return ok && b.Op == token.EQL && isRem && rem.Op == token.REM && isLoadOfField(ctrT+".requests")(strip2(rem.X)) && isLoadOfField(ctrT+".N")(strip2(rem.Y))
 		}, false), nil)
 		// requests++ on every call
 		q := &Cut{Fn: hr, Target: func(in ssa.Instruction) bool { _, ok := in.(*ssa.Return); return ok }, Sep: fieldWritePred(ctrT + ".requests")}
